@@ -151,6 +151,81 @@ CLAIMED['C03'] = dict(
           'iterations, all seven models), and the last M-step of each scene is compared inside Coq with Model/Trainers.v.'),
     design='6/C03', technique='Coq proof of the exact one-step case + exploration of the property predicate on its domain')
 
+CLAIMED['C11'] = dict(
+    text=('Theorems (real-number instance, every D, per bin hence every stack) given the solve contract A x = b: MVDR w^H a = 1, '
+          'a^H Phi^-1 a real > 0, v^H Phi v = w^H Phi w + (v-w)^H Phi (v-w) >= w^H Phi w for every distortionless v; LCMV '
+          'constraints; for Phi_xx = sigma a a^H Souden = conj(a_ref) w_mvdr with w^H a = a_ref, WMWF solves (Phi_xx + mu Phi_nn) w '
+          '= Phi_xx e_ref and is its only solution for mu > 0; Souden invariant to separate, WMWF to joint positive scaling (any '
+          'target PSD); WMWF(mu=0) = Souden when the trace is real; the chosen reference channel is the first arg-max of the '
+          "library's SNR criterion. Correspondence per run: solve results are oracles (same routine, contract residual evaluated in "
+          'Coq), model composition vs implementation at 2^-30; NumPy predicates for constraint, optimality vs competitors, '
+          'identities, invariances, arg-max, stack = slices, inputs untouched.'),
+    design='6/C11', technique='Coq proof over Reals/Coquelicot + in-Coq differential correspondence')
+CLAIMED['C12'] = dict(
+    text=('Theorems given the eigen-solver contract (A W = B W diag lambda, lambda real, W invertible; B-orthogonality derived, so '
+          'eig and degenerate targets are covered; PCA: Phi U = U diag lambda, U unitary, ascending): the selected GEV / PCA vector '
+          'attains lambda_max and v^H Phi_xx v <= lambda_max v^H Phi_nn v for every v; scalings are the unit-norm eigenvector times '
+          '1, sqrt(tr Phi) > 0, lambda_max (> 0 for PD); rank-one estimates Hermitian, rank one, trace preserving, equal to an '
+          'exactly rank-one target (PCA and GEV-ATF direction parallel to a); BAN = multiplication by sqrt(w^H Phi^2 w)/(w^H Phi w) '
+          '> 0, homogeneous, SNR unchanged. Correspondence: eigen outputs are oracles with contract residuals evaluated in Coq, '
+          'w w^H compared; predicates incl. maximality against probes and every other get_bf_vector beamformer.'),
+    design='6/C12', technique='Coq proof over Reals/Coquelicot + in-Coq differential correspondence')
+CLAIMED['C13'] = dict(
+    text=("Theorems: for all 84 table names (12 cores + ch0..ch29, with and without '+ban') and, by induction on decimal strings, "
+          'for every ch<n>, the model of get_bf_vector on Coq strings dispatches to the spelled composition for arbitrary '
+          'primitives; apply_beamforming_vector = w^H x; phase_correction keeps magnitudes and gives out_{f+1}^H out_f = '
+          '|w_{f+1}^H w_f| >= 0 for every leading index; stack = slices (structural). The accepted name list is derived from the '
+          'source (ast) on every run and must equal the table; names x kwargs x 0..2 leading axes compared with the composition '
+          'of library primitives; rejected names rejected by the model. Finiteness of Souden/WMWF on zero / exactly singular / '
+          'rank-deficient bins (WMWF mu > 0) and independence of regular bins are explored on every run, not proved.'),
+    design='6/C13', technique='Coq proof (finite table by computation + induction on strings; Reals for phase correction) + in-Coq differential correspondence')
+CLAIMED['C17'] = dict(
+    text=('PARTIAL. Proved: class bookkeeping of the chain (frequency mapping then global mapping = composed mapping on the original '
+          'rows; a mapping inverting the injected permutation field restores the rows); the ideal mask-based noise PSD sum_j sig_j '
+          'a_j a_j^H + nu I has quadratic form sum_j sig_j |v^H a_j|^2 + nu |v|^2, is Hermitian PSD; conditional leakage bound: for '
+          'any distortionless zero-forcing competitor v every interferer leaks at most nu |v|^2 through the MVDR vector (from MVDR '
+          'optimality). The stages are the objects of C01, C08, C10-C16. NOT proved: the 99 % / 30 dB thresholds (statistical '
+          'statements about random scenes) - EXPLORED: the whole documented chain (per-frequency cACGMM / cWMM from a per-frequency '
+          'permuted blurred partition, DHTV, oracle global alignment, mask-based PSDs, every listed beamformer) runs on generated '
+          'scenes from the stated domain and the property predicate is evaluated; the leakage bound is evaluated inside Coq on the '
+          "scene's ideal PSDs."),
+    design='6/C17', technique='Coq proof of bookkeeping and conditional leakage bound + end-to-end exploration of the property predicate')
+
+CLAIMED['C14'] = dict(
+    text=('Theorems (any ordered score carrier, hence Z, R and NaN-free binary64): the greedy (-inf masking, first maximum row-major) '
+          'and the optimal (strict-improvement scan over the itertools-order permutation list) assignment of EVERY KxK matrix is a '
+          'permutation of 0..K-1; apply_mapping spec, per-bin multiset and class-axis sums preserved; every mapping of the oracle, '
+          'greedy-chain and DHTV aligners is a permutation per bin for every mask (ties, zero/constant rows), plan, metric, '
+          'algorithm; inline EM alignment reorders affiliation and quadratic form by one and the same permutation; the '
+          'integration-model search returns a permutation not worse than the identity. Integer matrices: permutation iff masked '
+          'with a true bottom; refuted witness for matrices containing the dtype minimum (boundary outside the quantifier). Tied to '
+          '/repo on every run inside Coq: all {0,1,2}^(KxK) matrices K<=3 (int and float), random/tied matrices K<=6, '
+          'apply_mapping, the three aligners on tie-free and integer-valued masks, inline alignment, the integration-model '
+          'permutation; NumPy predicates (permutation, aligned[k,f]==mask[mapping[k,f],f], multiset/sums, same mapping, inputs '
+          'untouched) on constant/zero/tied masks too.'),
+    design='6/C14', technique='Coq proof (discrete, order-generic) + in-Coq differential correspondence')
+CLAIMED['C15'] = dict(
+    text=('Theorems: all_perms sound, complete, itertools order; the optimal assignment attains the maximum total over all '
+          'permutations (>= greedy), any K, any matrix; over the reals, for references with pairwise distinct (normalised, for cos) '
+          'rows the oracle mapping is the inverse of ANY per-frequency permutation field and applying it returns the reference '
+          'exactly, for cos / euclidean / multiply and both algorithms; a global permutation is resolved after joining frequency '
+          'and time. Correspondence inside Coq: optimal on all {0,1,2} matrices K<=3 and random matrices K<=6, oracle mappings '
+          '(all K!^F fields K<=3,F<=3 in thorough) incl. masks unrelated to the reference and the flattened variant; predicates: '
+          'total == scipy linear_sum_assignment optimum, exact restoration, inverse field. Not proved: that binary64 rounding '
+          'preserves the strict real inequalities (checked per case).'),
+    design='6/C15', technique='Coq proof (discrete + Reals) + in-Coq differential correspondence')
+CLAIMED['C16'] = dict(
+    text=('Theorems: the alignment plan covers every bin and stays in [0,F) for all F, start>=0, 1<=shift<=width (Python range '
+          'semantics on Z), 512/1024 defaults overlap >= 2/3; greedy follows any row-or-column dominating matching; DHTV loop '
+          'invariant features = initial[mapping] and the greedy chain composition (net reordering); on the stated domain '
+          '(non-negative patterns, cosine <= c, jitter <= d) the adjacent-bin matrices are dominant for multiply / euclidean / cos '
+          '(margins hold at c=d=0.1), hence the GREEDY aligner restores one class order for every permutation field, F, T, K; '
+          'consistent masks -> identity (greedy; DHTV given bin-vs-centroid dominance, _partial). NOT proved, explored by '
+          'predicate on every run: the DHTV restoration clause (>=70 % first-segment majority, >=2/3 overlap). Correspondence '
+          'inside Coq: alignment_plan for all configurations of STFT sizes <= 64 (hash) + defaults exactly; DHTV and greedy '
+          'calculate_mapping vs the binary64 loop-level model on tie-free masks and on the restoration domain.'),
+    design='6/C16', technique='Coq proof (Z, order-generic, Reals) + in-Coq differential correspondence + predicate exploration for the DHTV clause')
+
 NOT_YET = {}
 
 
